@@ -13,7 +13,7 @@ import searchmc
 import vlib
 from vlib import ToolError, log
 
-TIERS = {"quick": dict(shards=16, mate1=3, defend=3), "thorough": dict(shards=16, mate1=50, defend=50)}
+TIERS = {"quick": dict(shards=16, mate1=3, defend=3, won=5, lost=3), "thorough": dict(shards=16, mate1=50, defend=50, won=80, lost=40)}
 
 
 def _validate(exe, work, args, tag, R):
@@ -48,7 +48,14 @@ def run(prop, tier, seed):
     try:
         def shard(i):
             out = os.path.join(work, "mate_%d.ndjson" % i)
-            return out, _validate(exe, work, ["search-mate", "--seed", seed * 53 + i, "--mate1", T["mate1"], "--defend", T["defend"], "--out", out], str(i), R)
+            a = _validate(exe, work, ["search-mate", "--seed", seed * 53 + i, "--mate1", T["mate1"], "--defend", T["defend"], "--out", out], str(i), R)
+            # synthetic families: the strong side to move against a king on the edge (mates by every kind of man,
+            # pawns arriving on the seventh rank included), and the weak side to move in a lost position
+            o2 = os.path.join(work, "won_%d.ndjson" % i)
+            b = _validate(exe, work, ["search-mate", "--seed", seed * 59 + i, "--mate1", 10 ** 6, "--defend", 0, "--won", T["won"], "--out", o2], "w%d" % i, R)
+            o3 = os.path.join(work, "lost_%d.ndjson" % i)
+            c = _validate(exe, work, ["search-mate", "--seed", seed * 61 + i, "--mate1", 0, "--defend", 10 ** 6, "--lost", T["lost"], "--out", o3], "l%d" % i, R)
+            return out, tuple(x + y + z for x, y, z in zip(a, b, c))
         events = conf = skip = 0
         for out, (m, c, s) in vlib.parallel(shard, range(T["shards"])):
             events += m
